@@ -64,6 +64,12 @@ func execute(t vlib.TB, sp e1Spec, c e1Case) (*sim.Run, sim.Outcome, *runStats) 
 	}
 	out := r.Complete(budgetFor(c.S))
 	st.terminal = out.Terminal
+	for k, n := range sim.GenExcluded {
+		for i := 0; i < n; i++ {
+			vlib.Excluded(sp.check, k)
+		}
+		delete(sim.GenExcluded, k)
+	}
 	for k, n := range r.W.Excluded {
 		for i := 0; i < n; i++ {
 			vlib.Excluded(sp.check, k)
@@ -155,7 +161,7 @@ func runSpec(t *testing.T, sp e1Spec) {
 
 func TestC01ClosedLoop(t *testing.T) {
 	runSpec(t, e1Spec{check: "c01-closed-loop", props: []string{"C01"},
-		bias: sim.Bias{MaxActions: 150, LargeReplicas: true, UserWeights: map[string]int{sim.UserApprove: 10, sim.UserScale: 3, sim.UserEditStep: 3, sim.UserJump: 1, sim.UserRollback: 1, sim.UserRelease: 1, sim.UserPause: 1, sim.UserResume: 2}},
+		bias: sim.Bias{MaxActions: 150, LargeReplicas: vlib.Thorough(), UserWeights: map[string]int{sim.UserApprove: 10, sim.UserScale: 3, sim.UserEditStep: 3, sim.UserJump: 1, sim.UserRollback: 1, sim.UserRelease: 1, sim.UserPause: 1, sim.UserResume: 2}},
 		nt:   func(c e1Case, r *sim.Run, st *runStats) bool { return st.maxStep >= 2 || (st.maxStep >= 1 && st.disturbances > 0) }})
 }
 
@@ -205,4 +211,50 @@ func TestC09Reachability(t *testing.T) {
 	runSpec(t, e1Spec{check: "c09-reachability", props: []string{"C09"},
 		bias: sim.Bias{MaxActions: 150, HostileJump: true, UserWeights: map[string]int{sim.UserApprove: 6, sim.UserJump: 6, sim.UserEditStep: 3, sim.UserScale: 2, sim.UserDisable: 1, sim.UserEnable: 1, sim.UserDelete: 1, sim.UserRollback: 1, sim.UserRelease: 2, sim.UserPause: 1, sim.UserResume: 1}},
 		nt: func(c e1Case, r *sim.Run, st *runStats) bool { return st.maxStep >= 1 && st.userKinds[sim.UserJump] }})
+}
+
+// C05: every exit path leaves the cluster as the user configured it. The exit (complete /
+// rollback / disable / delete) is whatever the drawn history contains; after fair completion
+// the final store is compared with the configuration recorded before the release.
+func TestC05ExitRestore(t *testing.T) {
+	runSpec(t, e1Spec{check: "c05-exit-restore", props: []string{"C05"},
+		bias: sim.Bias{MaxActions: 150, UserWeights: map[string]int{sim.UserApprove: 10, sim.UserRollback: 3, sim.UserDisable: 3, sim.UserDelete: 3, sim.UserRelease: 1, sim.UserScale: 1, sim.UserEditStep: 1, sim.UserPause: 1, sim.UserResume: 1}},
+		nt: func(c e1Case, r *sim.Run, st *runStats) bool { return st.maxStep >= 1 && st.terminal },
+		final: func(t vlib.TB, c e1Case, r *sim.Run, out sim.Outcome) {
+			if !out.Terminal {
+				return // liveness is C07's verdict
+			}
+			if res := r.CheckRestored(); len(res) > 0 {
+				sig := "c05-not-restored-" + slug(res[0])
+				if tr := r.W.Track(); tr != nil && tr.BRUID == "" {
+					sig += "-batchrelease-never-created"
+				}
+				vlib.Fail(t, "c05-exit-restore", sig, c, "after the rollout ended the cluster is not as the user configured it: %s\nuser log: %v", strings.Join(res, "; "), r.UserLog)
+			}
+		}})
+}
+
+func slug(s string) string {
+	var b strings.Builder
+	words := 0
+	for _, w := range strings.Fields(strings.ToLower(s)) {
+		ok := true
+		for _, c := range w {
+			if !(c >= 'a' && c <= 'z') {
+				ok = false
+			}
+		}
+		if !ok {
+			continue
+		}
+		if words > 0 {
+			b.WriteByte('-')
+		}
+		b.WriteString(w)
+		words++
+		if words == 5 {
+			break
+		}
+	}
+	return b.String()
 }
